@@ -28,6 +28,13 @@ import (
 
 const c05K = 5
 
+// c05FiringBound is B of the second, explicitly bounded reading: after the synchrony point every honest node must hold
+// the frontier block within B deadline firings (step + fast-recovery timeouts) of its own. It is a MEASURED ENGINEERING
+// BOUND, not a protocol constant: >= 5x the maximum observed on the clean tree over the thorough tier (see notes/C05.md).
+var c05FiringBound = 320
+
+var c05MaxFiringsSeen int64
+
 // c05Delta is the network bound of the synchronous phase. Nodes enter a period at most delta apart (the message that
 // completes a quorum is relayed within delta) and a proposal takes at most delta, so every proposal arrives within
 // 2*delta of a node's period start; that must stay inside the shortest filter timeout (AgreementFilterTimeoutPeriod0 = 3 s
@@ -67,6 +74,7 @@ func TestVerif_C05_Progress(t *testing.T) {
 	vk := vkBegin(t, "C05")
 	vk.Rule("asynchronous prefix drawn by the Engine-A adversarial scheduler (100..500 events, B<=1 of >=10 accounts) then a synchrony point (delta = 1 s, lock-step clocks, timeouts at deadlines, catch-up on); every honest node must commit the frontier round within K=5 further periods; non-trivial = at the synchrony point honest nodes were in >=2 different (round,period) positions, or some node had seen a cert threshold without the block, or some node was down; distinct by population + positions at the synchrony point + prefix counters")
 	vk.Assume("after the synchrony point the Byzantine identity is silent; message delay bound delta = 1 s (see c05Delta); the 'eventually' of the statement is read as K = 5 periods")
+	defer func() { vk.Add("firings_max_seen_in_this_shard", c05MaxFiringsSeen) }()
 	rapid.Check(t, func(t *rapid.T) {
 		// population: >= 10 accounts, B <= 1
 		var cfg engaConfig
@@ -226,14 +234,18 @@ func TestVerif_C05_Progress(t *testing.T) {
 		}
 		s.tracef("=========== SYNCHRONY POINT frontier=%d P0=%d", frontier, p0)
 
-		budget := 9000
-		if vkThorough() {
-			budget = 15000
-		}
+		// event budget of the synchronous phase: large enough for a stuck system to reach B firings per node (a stuck
+		// node re-broadcasts ~10 recovery votes to every peer at each fast-recovery firing); clean cases need < 4 000
+		budget := 150000
 		startEvents := s.stats.events
 		verdict := ""
 		livePos := map[int][3]uint64{}
 		liveCnt := map[int]int{}
+		fireBase := map[int]int{}
+		for _, n := range s.nodes {
+			fireBase[n.id] = n.firings
+		}
+		maxFirings := 0 // max over nodes of deadline firings between the synchrony point and that node holding block F
 		maxPeriodSeen := p0
 		for verdict == "" {
 			// termination / violation checks
@@ -246,8 +258,19 @@ func TestVerif_C05_Progress(t *testing.T) {
 					maxPeriodSeen = n.player.Period
 				}
 			}
+			for _, n := range s.nodes {
+				if n.ledger.NextRound() <= frontier {
+					if f := n.firings - fireBase[n.id]; f > maxFirings {
+						maxFirings = f
+					}
+				}
+			}
 			if all {
 				verdict = "committed"
+				break
+			}
+			if maxFirings > c05FiringBound {
+				verdict = "violation_firings"
 				break
 			}
 			if maxPeriodSeen > p0+c05K {
@@ -357,6 +380,9 @@ func TestVerif_C05_Progress(t *testing.T) {
 		case "violation":
 			s.failf("C05: after the synchrony point (frontier round %d, highest period %d) an honest node reached period %d without every honest node having committed round %d (K=%d). Positions at the synchrony point: %s",
 				frontier, p0, maxPeriodSeen, frontier, c05K, res.StatesAtSync)
+		case "violation_firings":
+			s.failf("C05: after the synchrony point (frontier round %d) an honest node has taken %d deadline firings (step + fast-recovery timeouts) and still does not hold block %d; bound B=%d (measured engineering bound, see notes/C05.md). Positions at the synchrony point: %s",
+				frontier, maxFirings, frontier, c05FiringBound, res.StatesAtSync)
 		case "deadlock":
 			s.failf("C05: after the synchrony point nothing is enabled any more (no message, no timeout) and round %d is not committed by everybody. Positions at the synchrony point: %s", frontier, res.StatesAtSync)
 		case "inconclusive_step_budget":
@@ -365,6 +391,11 @@ func TestVerif_C05_Progress(t *testing.T) {
 		default:
 			vk.Label("verdict/committed")
 			vk.Labelf("periods_used=%d", res.PeriodsUsed)
+			vk.Labelf("firings_max=%s", engaBucket(maxFirings, 0, 2, 4, 6, 8, 12, 16, 24, 32, 48, 64, 100))
+			vk.Add("firings_max_overall", 0)
+			if int64(maxFirings) > c05MaxFiringsSeen {
+				c05MaxFiringsSeen = int64(maxFirings)
+			}
 		}
 		vk.Labelf("sync/positions=%d", min(len(positions), 4))
 		vk.Labelf("sync/P0=%d", min(int(p0), 3))
@@ -397,4 +428,118 @@ func TestVerif_C05_Progress(t *testing.T) {
 			vk.Sample(nt, res)
 		}
 	})
+}
+
+// TestVerif_C05_LongPartition: scripted long-partition scenario, delay/partition only (no crash, no Byzantine identity).
+// 5 equal-stake nodes. Period 0 fails (the soft votes are lost), everybody next-votes bottom; the next quorum is seen by
+// nodes 0,1,2 only, which enter period 1; then the network splits {0,1,2} | {3,4} — neither side has a quorum — and stays
+// split until nodes 0,1,2 have voted at step next+4 of period 1 (so they are past partitionStep = next+3). Everything in
+// flight is lost, the partition heals, and from then on the network is synchronous: every message is delivered before
+// the next timer fires, timers fire exactly at their deadlines, clocks run in lock-step. Every node must hold block 1
+// within B = c05FiringBound deadline firings of its own (the same measured engineering bound as TestVerif_C05_Progress).
+func TestVerif_C05_LongPartition(t *testing.T) {
+	vk := vkBegin(t, "C05")
+	vk.Rule("scripted long partition ({0,1,2} one period ahead of {3,4}, held past step next+4, then healed; timers only), 8 populations; non-trivial = at healing the two sides were in different periods and the majority side was past partitionStep")
+	for ks := uint64(0); ks < 8; ks++ {
+		cfg := engaConfig{Nodes: 5, Accts: []int{1, 1, 1, 1, 1}, Stake: []uint64{1e6, 1e6, 1e6, 1e6, 1e6}, KeySeed: ks}
+		s := engaNewSimHook(t, cfg, func(s *engaSim) { s.traceOn = true })
+		ent := func() uint64 { return 1 }
+		// period 0: soft votes are lost; next votes do not reach nodes 3 and 4
+		s.hold = func(m *engaMsg) bool {
+			return m.cls == int(soft) || (m.cls >= int(next) && m.cls < int(late) && (m.dst == 3 || m.dst == 4))
+		}
+		ahead := func(p period) bool {
+			return s.nodes[0].player.Period >= p && s.nodes[1].player.Period >= p && s.nodes[2].player.Period >= p
+		}
+		for i := 0; i < 4000 && !ahead(1); i++ {
+			if !s.benignStep(ent()) {
+				break
+			}
+		}
+		note := ""
+		if !ahead(1) || s.nodes[3].player.Period != 0 || s.nodes[4].player.Period != 0 {
+			note = "could not put nodes 0,1,2 one period ahead"
+		}
+		// the split
+		s.group = []int{0, 0, 0, 1, 1}
+		s.hold = func(m *engaMsg) bool { return m.cls == int(soft) }
+		past := func() bool {
+			for _, i := range []int{0, 1, 2} {
+				n := s.nodes[i]
+				if n.player.Period != 1 || n.player.Step < next+4 || n.player.Napping {
+					return false
+				}
+			}
+			return true
+		}
+		for i := 0; i < 20000 && note == "" && !past(); i++ {
+			if !s.benignStep(ent()) {
+				break
+			}
+		}
+		if note == "" && !past() {
+			note = "majority side did not reach step next+4 of period 1"
+		}
+		nt := note == "" && s.nodes[3].player.Period == 0 && s.nodes[4].player.Period == 0
+		pos := ""
+		for _, n := range s.nodes {
+			pos += n.String() + " "
+		}
+		// heal: what was in flight is lost; from here on synchronous, timers only
+		s.pool = nil
+		for i := range s.known {
+			s.known[i] = map[crypto.Digest]bool{}
+		}
+		s.dedupeDelivered = false
+		s.hold = nil
+		s.group = []int{0, 0, 0, 0, 0}
+		base := map[int]int{}
+		for _, n := range s.nodes {
+			base[n.id] = n.firings
+		}
+		maxF := 0
+		verdict := ""
+		for ev := 0; verdict == "" && nt; ev++ {
+			all := true
+			for _, n := range s.nodes {
+				if n.committed() < 1 {
+					all = false
+					if f := n.firings - base[n.id]; f > maxF {
+						maxF = f
+					}
+				}
+			}
+			switch {
+			case all:
+				verdict = "committed"
+			case maxF > c05FiringBound:
+				verdict = "violation"
+			case ev > 400000:
+				verdict = "inconclusive"
+			default:
+				for i, n := range s.nodes { // catch-up for nodes that lag a whole round
+					if _, ok := s.commits[n.ledger.NextRound()]; ok && n.committed() < 1 {
+						s.catchup(i)
+					}
+				}
+				if !s.benignStep(ent()) {
+					verdict = "deadlock"
+				}
+			}
+		}
+		vk.Case(nt, fmt.Sprintf("longpartition/%d/%s", ks, pos))
+		vk.Sample(nt, map[string]any{"keySeed": ks, "note": note, "positionsAtHealing": pos, "verdict": verdict, "firingsMaxPerNode": maxF})
+		if !nt {
+			vk.Label("longpartition/not_applicable")
+			continue
+		}
+		vk.Label("longpartition/" + verdict)
+		vk.Labelf("longpartition/firings_max=%s", engaBucket(maxF, 2, 4, 8, 16, 32, 64))
+		switch verdict {
+		case "violation", "deadlock":
+			s.failf("C05 long partition: after healing ({0,1,2} were one period ahead and past step next+4) %s: some node took %d deadline firings without holding block 1 (B=%d). Positions at healing: %s", verdict, maxF, c05FiringBound, pos)
+		case "inconclusive":
+			vk.Excluded("inconclusive_step_budget")
+		}
+	}
 }
